@@ -1,17 +1,33 @@
 import Driver.Reader
-open Driver
+import Driver.Flow
+open Driver Vflow
 
-def handle (line : String) : String :=
+/-- driver state: one model template cache per protocol, reset by `new` -/
+structure DState where
+  ipfix : Cache := []
+  nf9 : Cache := []
+
+def unhexArg (s : String) : Bytes := if s = "-" then [] else unhex s
+
+def handle (st : DState) (line : String) : DState × String :=
   match line.trimAscii.toString.splitOn " " with
-  | ["reader", buf, ops] => readerLine buf ops
-  | ["reader", buf] => readerLine buf ""
-  | _ => "bad-op"
+  | ["new"] => ({}, "new")
+  | ["reader", buf, ops] => (st, readerLine buf ops)
+  | ["reader", buf] => (st, readerLine buf "")
+  | ["ipfix", a, d] =>
+    let (res, c') := Ipfix.decode st.ipfix (unhexArg a) (unhexArg d)
+    ({ st with ipfix := c' }, showResult res)
+  | ["nf9", a, d] =>
+    let (res, c') := V9.decode st.nf9 (unhexArg a) (unhexArg d)
+    ({ st with nf9 := c' }, showResult res)
+  | _ => (st, "bad-op")
 
-partial def loop (h : IO.FS.Stream) (out : IO.FS.Stream) : IO Unit := do
+partial def loop (h : IO.FS.Stream) (out : IO.FS.Stream) (st : DState) : IO Unit := do
   let line ← h.getLine
   if line.isEmpty then return ()
-  out.putStrLn (handle line)
-  loop h out
+  let (st', o) := handle st line
+  out.putStrLn o
+  loop h out st'
 
 def main : IO Unit := do
-  loop (← IO.getStdin) (← IO.getStdout)
+  loop (← IO.getStdin) (← IO.getStdout) {}
